@@ -336,6 +336,13 @@ def needle_forms(sel):
     return {raw, q, h}
 
 
+def refusal_class(proto, out):
+    """the protocol's not-found answer, or Spartan's server-error line (what an OSError from a handler becomes there)"""
+    if gen.notfound_class(proto, out):
+        return True
+    return proto == "spartan" and out.startswith(b"5 ") and out.endswith(b"\r\n") and out.count(b"\n") == 1
+
+
 def without_real_only(handlers):
     drop = ("mbox.MaildirFolderHandler", "mbox.MaildirMessageHandler", "mbox.MBoxMessageHandler",
             "mbox.MBoxFolderHandler", "pyg.PYGHandler", "scriptexec.ExecHandler")
@@ -391,7 +398,41 @@ def part_oracle(chk, tier):
             jobs.append(job_for(tree, members, zacts, handlers=handlers, **common_kw))
             jobs.append(job_for(tree, members, tacts, handlers=without_real_only(handlers), **common_kw))
             meta.append((tree, members, allsels, plan, hname, handlers))
-    res = impl_run_parallel(jobs, chunks=min(16, len(jobs)))
+    # corpus: the D19 exhibit — a mailbox and a maildir at the top of an archive, a mailbox of the same
+    # name in the server's working directory (outside the document root)
+    ex_tree = [{"path": "a.txt", "kind": "file", "data": "alpha\n"},
+               {"path": "mail.mbox", "kind": "file", "data": G.MBOX},
+               {"path": "md", "kind": "dir", "explicit": True}, {"path": "md/new", "kind": "dir", "explicit": True},
+               {"path": "md/cur", "kind": "dir", "explicit": True}, {"path": "md/tmp", "kind": "dir", "explicit": True},
+               {"path": "md/new/1.msg", "kind": "file", "data": G.MAILMSG}]
+    ex_reqs = [ZSEL + "/mail.mbox|/MBOX-MESSAGE/1", ZSEL + "/mail.mbox", ZSEL + "/md", ZSEL + "/md|/MAILDIR-MESSAGE/1"]
+    ex_acts = []
+    for sel in ex_reqs:
+        d, tls = gen.request_bytes("gopher", sel)
+        ex_acts.append({"do": "req", "data": gen.lat(d), "tls": tls})
+    ex_job = job_for(ex_tree, G.members_of(ex_tree), ex_acts, handlers=ZIP_FIRST,
+                     cwd_files=[{"path": "mail.mbox", "data": G.MBOX.replace("one", "CWD-OUTSIDE-THE-ROOT")}])
+    res = impl_run_parallel(jobs + [ex_job], chunks=min(16, len(jobs) + 1))
+    ex = res.pop()
+    if not ex["ok"]:
+        raise RuntimeError(ex["err"] + "\n" + ex.get("tb", ""))
+    ex = ex["res"]
+    leaked = [(sel, a["out"]) for sel, a in zip(ex_reqs, ex["actions"]) if "CWD-OUTSIDE-THE-ROOT" in a["out"]]
+    chk.count(("corpus", "D19"))
+    if leaked:
+        found = True
+        chk.violation({"what": "a selector into an archive is answered from a mailbox in the server's working directory: "
+                               "the mailbox handler accepts the archive member and opens the member's relative path "
+                               "on the real file system",
+                       "selector": leaked[0][0], "response_latin1": leaked[0][1][:600], "members": G.members_of(ex_tree),
+                       "cwd_files": ["mail.mbox (Subject: CWD-OUTSIDE-THE-ROOT)"], "config": config_for(ZIP_FIRST)},
+                      tag="D19-answers-from-server-cwd")
+    if ex["cwd_created"]:
+        found = True
+        chk.violation({"what": "a selector into an archive made the maildir handler create directories in the "
+                               "server's working directory (mailbox.Maildir(relative member path), create=True)",
+                       "selectors": ex_reqs, "created": ex["cwd_created"], "members": G.members_of(ex_tree),
+                       "config": config_for(ZIP_FIRST)}, tag="D19-writes-in-server-cwd")
     nreq = ndiff = nreal = 0
     for k, (tree, members, allsels, plan, hname, handlers) in enumerate(meta):
         rz_job, rt_job = res[2 * k], res[2 * k + 1]
@@ -402,8 +443,14 @@ def part_oracle(chk, tier):
         zacts, tacts = zout["actions"], tout["actions"]
         # handler choice inside the archive
         idx = 0
+        outside_archive = set()
+        d19_paths = set()
         for p in allsels:
             zc = zacts[idx]["chain"]
+            if ("|" in p or "?" in p) and zc and zc[0] in REAL_ONLY:
+                # taken by a virtual-folder handler of the TOP-level chain (real file system): the request
+                # never reaches the archive, whatever that handler then does is not about transparency
+                outside_archive.add(p)
             idx += 1 + len([1 for q in plan if q[0] == p])
             inner = zc[1:] if zc and zc[0] == "ZIPHandler" else []
             chk.count(("handler", hname, json.dumps(members[:3]), p), nontrivial=bool(inner))
@@ -411,6 +458,7 @@ def part_oracle(chk, tier):
             if bad:
                 found = True
                 nreal += 1
+                d19_paths.add(p)
                 chk.violation({"what": "a handler that needs a real file is chosen for a member of a ZIP archive "
                                        "(its test on self.vfs is true for VFSZip, a subclass of VFS_Real, or it has none)",
                                "selector": ZSEL + "/" + p, "handler_chain": zc, "handler_list": hname,
@@ -423,10 +471,12 @@ def part_oracle(chk, tier):
             b = mask(rz["out"].encode("latin-1"), True)
             nf = gen.notfound_class(proto, rt["out"].encode("latin-1"))
             chk.count(("req", hname, proto, gp, p, json.dumps(members[:3])), nontrivial=not nf)
+            if p in outside_archive:
+                continue
             if ("|" in p or "?" in p) and nf:
                 # virtual-folder arguments on something that is not a real mailbox/script: both sides have
                 # to refuse; the wording of the refusal is not part of the tree
-                same = gen.notfound_class(proto, rz["out"].encode("latin-1"))
+                same = refusal_class(proto, rz["out"].encode("latin-1"))
             else:
                 same = a == b
             if not same:
@@ -441,12 +491,12 @@ def part_oracle(chk, tier):
                                "exception_zip": rz.get("exc"), "log_zip": rz.get("log"),
                                "tree": tree, "members": members, "pruned_links": zout["pruned"],
                                "config": config_for(handlers)},
-                              tag=classify_request_diff(tree, p, rz))
+                              tag=classify_request_diff(tree, p, d19_paths))
         if zout["cwd_created"]:
             found = True
             chk.violation({"what": "requests into an archive created files in the server's working directory",
                            "created": zout["cwd_created"], "members": members, "handler_list": hname},
-                          tag="D19-writes-in-cwd")
+                          tag="D19-writes-in-server-cwd")
     chk.coverage["oracle"] = {"trees": ntrees, "handler_lists": 2, "requests": nreq, "response_differences": ndiff,
                               "real_only_handler_inside_archive": nreal, "protocols": protos,
                               "masked": ["'XT.zip' -> 'XT' in the archive's answers",
@@ -460,19 +510,33 @@ def part_oracle(chk, tier):
     return found
 
 
-def classify_request_diff(tree, p, rz):
+def classify_request_diff(tree, p, d19_paths):
     """stable tag for a response difference: by what the member path runs through"""
+    base = p.split("|")[0].split("?")[0]
+    if p in d19_paths or base in d19_paths:
+        return "D19-archive-answer-differs"
+    if any(q.startswith(base + "/") and "/" not in q[len(base) + 1:] for q in d19_paths if base) or \
+            (base == "" and any("/" not in q for q in d19_paths)):
+        return "D19-archive-listing-differs"
     by_path = {e["path"]: e for e in tree}
-    parts = p.split("|")[0].split("?")[0].split("/") if p else []
+    parts = base.split("/") if base else []
     for i in range(1, len(parts) + 1):
         e = by_path.get("/".join(parts[:i]))
         if e and e["kind"] == "link":
             return "zip-link-differs"
-    e = by_path.get(p)
-    if e and e["kind"] == "dir" or p == "":
-        # a listing that differs because of a link child?
+    e = by_path.get(base)
+    if (e and e["kind"] == "dir") or base == "":
         return "zip-listing-differs"
     return "zip-response-differs"
+
+
+def translator_tie(chk):
+    """Gen/ZipReal.v (the tests on self.vfs as they stand in the source) must turn VFSZip away."""
+    from common import coq_compute
+    rc, out = coq_compute("C16", "t16", "Lib.Str Model.ZipChain Gen.ZipReal Corr.T16", "(repo_guards, repo_tests)")
+    ok = rc == 0 and "(true," in out.replace("\n", " ")
+    chk.coverage["translator_tie_real_only"] = {"repo_guards": ok, "coq_output": out.strip()[-400:]}
+    return ok
 
 
 def run(tier):
@@ -480,5 +544,32 @@ def run(tier):
     chk.proofs(extra_files=["Corr/K16.v", "Corr/T16.v"])
     found = part_k(chk, tier)
     found = part_oracle(chk, tier) or found
+    if chk.proof_ok and not translator_tie(chk) and not found:
+        chk.violation({"what": "translator tie: the tests on self.vfs in mbox.py / pyg.py / scriptexec.py do not turn "
+                               "VFSZip away (theorem C16_real_only_repo needs repo_guards = true)",
+                       "detail": chk.coverage["translator_tie_real_only"]}, tag=None, no_input=True)
     chk.finish_proofs(found)
+    chk.assumptions += [
+        "zipfile (central directory parsing, decompression) is trusted: the member list given to the model is what the real "
+        "library reports for the archive the real code reads",
+        "the reference tree is the archive's members written to disk with their raw byte names (what zip(1)/unzip do on POSIX), "
+        "absolute link targets taken relative to the tree's root, links that the OS cannot resolve inside the tree removed "
+        "(a dangling link is listed by readdir but no handler can serve it)",
+        "os.path.split/join/normpath modelled in Lib/ZipPath.v and compared with the real functions on every run",
+        "only dbm.dumb exists on this image: shelve writes <cache>.dat/.dir/.bak, VFSZip.init_cache stats the un-suffixed name, "
+        "never finds it and rebuilds the index on every request (tests/handlers/test_zip.py::test_save_cache fails on the "
+        "baseline for the same reason); the cache files are deleted after every action",
+        "in-process driver (real GopherRequestHandler.handle with fake socket objects); the server's working directory is a "
+        "scratch directory so that D19's relative-path accesses are observable and harmless",
+    ]
+    chk.coverage["rule"] = (
+        "K: seeded random trees (nested dirs, explicit/implicit directory members, dot-files, .abstract sidecars, .Links/.names/"
+        "gophermap/.cap, UTF-8 names with and without the UTF-8 flag, raw non-UTF-8 names, relative/absolute/dangling/escaping/"
+        "cyclic/chained symlink members, mbox/maildir/script/PYG) in 4 member orders + ill-formed archives (duplicate names, "
+        "file used as directory, empty/./.. components, absolute names, empty link targets): real VFSZip.dircache, "
+        "invalid_paths, entrycache and sequences of stat/isdir/isfile/exists/listdir/open vs the model evaluated in Coq; "
+        "extract+os_walk vs the real extracted tree; posixpath functions vs Lib/ZipPath.v.  Oracle: every selector of the "
+        "tree + paths through links + missing ones + climbers + virtual-folder arguments, 9 protocol syntaxes, 2 handler "
+        "orders, /XT/<sel> vs /XT.zip/<sel> byte for byte after masking.  non-trivial = index has more than two inodes / "
+        "call succeeded / answer is not the protocol's not-found")
     return chk.finish("proof")
